@@ -133,7 +133,7 @@ struct Main {
 fn arm(domain: &str, mode: &str, n: usize) {
     match domain {
         "kv" => krill::verif::kvfault::arm(n, if mode == "crash" { krill::verif::kvfault::Mode::Crash } else { krill::verif::kvfault::Mode::Once }),
-        _ => krill::verif::fault::arm(n),
+        _ => if mode == "crash" { krill::verif::fault::arm(n) } else { krill::verif::fault::arm_once(n) },
     }
 }
 
